@@ -55,6 +55,14 @@ M = [
     ("C13", "rseq-cursor", "black_it/samplers/r_sequence.py", "        self._sequence_index = end_index", "        self._sequence_index = end_index - 1"),
     ("C13", "rseq-alpha", "black_it/samplers/r_sequence.py", "np.power(1 / phi, np.arange(1, dims + 1))", "np.power(1 / phi, np.arange(0, dims))"),
     ("C13", "rseq-maxindex", "black_it/samplers/r_sequence.py", "            _MIN_SEQUENCE_START_INDEX,\n            _MAX_SEQUENCE_START_INDEX,\n        )\n        self._sequence_start", "            0,\n            _MAX_SEQUENCE_START_INDEX,\n        )\n        self._sequence_start"),
+    ("C08", "weights0", "black_it/loss_functions/base.py", "real_data[:, i]) * weights[i]", "real_data[:, i]) * weights[min(i, 1)]"),
+    ("C08", "filter-wrong-coord", "black_it/loss_functions/base.py", "filter_(sim_data_ensemble[j, :, i])", "filter_(sim_data_ensemble[j, :, max(i - 1, 0)])"),
+    ("C08", "filter-in-place", "black_it/loss_functions/base.py", "            filtered_data.append(filtered_data_1d)", "            if filter_ is not None:\n                sim_data_ensemble[:, :, i] = filtered_data_1d\n            filtered_data.append(filtered_data_1d)"),
+    ("C08", "default-weights-ones", "black_it/loss_functions/base.py", "weights = np.ones(num_coords) / num_coords", "weights = np.ones(num_coords) / max(num_coords, 2)"),
+    ("C08", "mink-first-member", "black_it/loss_functions/minkowski.py", "sim_data_ensemble = sim_data_ensemble.mean(axis=0)", "sim_data_ensemble = sim_data_ensemble.mean(axis=0) * 0.5 + sim_data_ensemble[0] * 0.5"),
+    ("C08", "msm-cache-W", "black_it/loss_functions/msm.py", "                / np.mean((real_mom_1d[None, :] - ensemble_sim_mom_1d) ** 2, axis=0),\n            )", "                / np.mean((real_mom_1d[None, :] - ensemble_sim_mom_1d) ** 2, axis=0),\n            )\n            self._covariance_mat = W"),
+    ("C08", "len-ge", "black_it/loss_functions/base.py", "                nb_coordinate_weights == num_coords,", "                nb_coordinate_weights >= num_coords,"),
+    ("C08", "lik-last-member", "black_it/loss_functions/likelihood.py", "log_lik_real_series = np.sum(log_lik_real_series_r, axis=0) / r", "log_lik_real_series = (np.sum(log_lik_real_series_r, axis=0) + log_lik_real_series_r[-1] - log_lik_real_series_r[0]) / r"),
     ("C15", "no-tolerance", "black_it/search_space.py", "parameters_bounds[1][i] + 0.0000001,", "parameters_bounds[1][i],"),
 ]
 
